@@ -84,6 +84,19 @@ func alloc(k *chain.Keys) chain.GenesisAlloc {
 	return g
 }
 
+// keyIndexOfUC returns the index of the harness key behind single-key unlock conditions (-1 if unknown).
+func keyIndexOfUC(k *chain.Keys, uc types.UnlockConditions) int {
+	if len(uc.PublicKeys) != 1 {
+		return -1
+	}
+	for i := range k.Pub {
+		if string(uc.PublicKeys[0].Key) == string(k.Pub[i][:]) {
+			return i
+		}
+	}
+	return -1
+}
+
 func keyIndex(k *chain.Keys, pk types.PublicKey) int {
 	for i := range k.Pub {
 		if k.Pub[i] == pk {
@@ -261,6 +274,69 @@ func templates(k *chain.Keys) []template {
 			u := w.UseV1SF(p, 1)
 			return u, true
 		}, none},
+		{"v1 partial signatures covering only the SECOND element of every list", func(w *chain.World) (chain.Use, bool) {
+			// covered-field lists that are not the identity prefix [0..m-1]: siacoin outputs [1], siafund outputs [1], miner
+			// fees [1], arbitrary data [1]; two inputs (one siacoin, one siafund), each signed over the same covered fields
+			t, p, ok := v1base(w, k.Addr(chain.AddrV1), k.StdUC(0))
+			if !ok {
+				return chain.Use{}, false
+			}
+			bc := w.NewBlockCtx()
+			q, ok := bc.PickSF(func(c int) bool { return c == chain.AddrV1 })
+			if !ok || q.SiafundOutput.Value < 2 {
+				return chain.Use{}, false
+			}
+			t.SiafundInputs = []types.SiafundInput{{ParentID: q.ID, UnlockConditions: k.StdUC(0), ClaimAddress: k.Addr(chain.AddrV1)}}
+			t.SiafundOutputs = []types.SiafundOutput{{Value: 1, Address: k.Addr(chain.AddrV1b)}, {Value: q.SiafundOutput.Value - 1, Address: k.Addr(chain.AddrV1)}}
+			t.ArbitraryData = [][]byte{[]byte("memo-0"), []byte("memo-1")}
+			cf := types.CoveredFields{SiacoinInputs: []uint64{0}, SiafundInputs: []uint64{0}, SiacoinOutputs: []uint64{1}, SiafundOutputs: []uint64{1}, MinerFees: []uint64{1}, ArbitraryData: []uint64{1}}
+			signV1With(w, &t, types.Hash256(p.ID), []int{0}, []uint64{0}, cf, 0)
+			signV1With(w, &t, types.Hash256(q.ID), []int{0}, []uint64{0}, cf, 0)
+			return chain.Use{Name: "v1", V1: &t, SuppSF: []types.SiafundElement{q.Copy()}}, true
+		}, func(path string) bool {
+			for _, un := range []string{".SiacoinOutputs[0]", ".SiafundOutputs[0]", ".MinerFees[0]", ".ArbitraryData[0]"} {
+				if strings.HasPrefix(path, un) {
+					return true
+				}
+			}
+			// both inputs are signed by the same key over the same partial hash (which binds the covered fields only, not
+			// the signature entry's own parent id): exchanging the two parent ids yields an equivalent transaction
+			if strings.HasPrefix(path, ".Signatures[") && strings.HasSuffix(path, "].ParentID") {
+				return true
+			}
+			// appending / dropping / duplicating list elements beyond the covered index, and raising a signature timelock
+			return strings.HasSuffix(path, "].Timelock+1") || path == ".ArbitraryData[dup last]" || path == ".MinerFees[dup last]" || path == ".SiacoinOutputs[dup last]" || path == ".SiafundOutputs[dup last]"
+		}},
+		{"v1 partial signature covering the SECOND of two file contract formations", func(w *chain.World) (chain.Use, bool) {
+			h := w.ChildHeight()
+			if h >= w.Net.HardforkV2.RequireHeight {
+				return chain.Use{}, false
+			}
+			bc := w.NewBlockCtx()
+			if !chain.V1FormAbs(h+1, h+3, 100).Do(bc) || len(bc.V1) != 1 {
+				return chain.Use{}, false
+			}
+			t := bc.V1[0]
+			fc := t.FileContracts[0]
+			if len(t.SiacoinOutputs) == 0 || t.SiacoinOutputs[0].Value.Cmp(fc.Payout) <= 0 || len(t.SiacoinInputs) != 1 {
+				return chain.Use{}, false
+			}
+			fc2 := fc
+			fc2.WindowEnd++
+			t.FileContracts = []types.FileContract{fc, fc2}
+			t.SiacoinOutputs = append([]types.SiacoinOutput(nil), t.SiacoinOutputs...)
+			t.SiacoinOutputs[0].Value = t.SiacoinOutputs[0].Value.Sub(fc.Payout)
+			t.Signatures = nil
+			cf := types.CoveredFields{SiacoinInputs: []uint64{0}, SiacoinOutputs: []uint64{0}, FileContracts: []uint64{1}, MinerFees: []uint64{0}}
+			ki := keyIndexOfUC(k, t.SiacoinInputs[0].UnlockConditions)
+			if ki < 0 {
+				return chain.Use{}, false
+			}
+			signV1With(w, &t, types.Hash256(t.SiacoinInputs[0].ParentID), []int{ki}, []uint64{0}, cf, 0)
+			return chain.Use{Name: "v1", V1: &t}, true
+		}, func(path string) bool {
+			return strings.HasPrefix(path, ".FileContracts[0]") || strings.HasPrefix(path, ".ArbitraryData") || strings.HasSuffix(path, "].Timelock+1") || path == ".FileContracts[dup last]"
+		}},
 		{"v1 siafund spend through the dev-address override", func(w *chain.World) (chain.Use, bool) {
 			if w.ChildHeight() >= w.Net.HardforkV2.RequireHeight || w.ChildHeight() < w.Net.HardforkDevAddr.Height {
 				return chain.Use{}, false
